@@ -26,8 +26,8 @@ open SqlVerif.Pratt SqlVerif.Query SqlVerif.Dml SqlVerif.Ddl SqlVerif.Gen
 fragment need nothing; for `SET variable = values` (one-name, `TIME ZONE` and parenthesised-tuple targets) the values
 are printable, there is no trailing comma after the values and — when the modifier is `SESSION`, which the printer
 drops — a one-name variable does not begin with the word SESSION / LOCAL / HIVEVAR (`Stmt.varNormal` /
-`Stmt.tupleNormal`; `SET SESSION LOCAL = 1` prints `SET LOCAL = 1`, which is rejected); `SET NAMES` is not covered (it prints its strings raw and is not a fixpoint
-in general) -/
+`Stmt.tupleNormal`; `SET SESSION LOCAL = 1` prints `SET LOCAL = 1`, which is rejected); `SET NAMES` needs nothing (a name
+that is not one plain non-keyword word is printed as a '…' string: one token with the same text either way) -/
 def Stmt.fixOk : Stmt → Bool
   | .ddl s0 => s0.printableQ && s0.normal
   | .assert kw e ak m => (Stmt.assert kw e ak m).assertPrintable
@@ -35,7 +35,6 @@ def Stmt.fixOk : Stmt → Bool
   | .setVar kw md colon tg eq lp vs rp =>
     (Stmt.setVar kw md colon tg eq lp vs rp).varPrintable &&
       ((Stmt.setVar kw md colon tg eq lp vs rp).varNormal || (Stmt.setVar kw md colon tg eq lp vs rp).tupleNormal)
-  | .setNames _ _ _ _ _ _ => false
   | _ => true
 
 /-- the constructors `parse_set` builds -/
@@ -122,7 +121,7 @@ theorem fix_set (c : TCfg) (f d : Nat) (kw : Tok) (ts : List Tok) (s : Stmt)
     rcases hk.2 with hn | hn
     · exact fixVar_set c f d kw ts [] _ h rfl hk.1 hn ht rfl
     · exact fixVar_tuple c f d kw ts [] _ h rfl hk.1 hn ht rfl
-  | setNames _ _ _ _ _ _ => simp [Stmt.fixOk] at hk
+  | setNames _ _ _ _ _ _ => exact fixMisc_set c f d kw ts [] _ tx_modes_reparse tx_modes_toks h rfl
   | setTimeZone kw' md colon tg e => exact fixExpr_setTz c f d kw ts _ h rfl hk ht
   | setRole _ _ _ _ => exact fixMisc_set c f d kw ts [] _ tx_modes_reparse tx_modes_toks h rfl
   | setNamesDefault _ _ _ _ _ => exact fixMisc_set c f d kw ts [] _ tx_modes_reparse tx_modes_toks h rfl
